@@ -23,6 +23,9 @@ def _imports():
 
 def by_name(name):
     de, I = _imports()
+    if name.startswith("RICH:"):
+        _, base, k = name.split(":")
+        return I.generate_richardson_integrator(by_name(base), int(k))
     for M in I.explicit_methods() + I.implicit_methods():
         if M.__name__ == name:
             return M
@@ -34,6 +37,8 @@ def family(name):
                        ("implicit-fixed", IMPLICIT_FIXED), ("implicit-adaptive", IMPLICIT_ADAPTIVE)):
         if name in names:
             return fam
+    if name.startswith("RICH:"):
+        return "richardson"
     return "other"
 
 
